@@ -190,11 +190,15 @@ def parseUint64Lossy (s : Bytes) : Nat :=
   let n := digitsVal s
   if n > 2 ^ 64 - 1 then 2 ^ 64 - 1 else n
 
-/-- `strconv.ParseUint(s, 10, 63)` with the error ignored (repair F14): saturates at 2^63-1. -/
+/-- `strconv.ParseUint(s, 10, 63)` with the error ignored (repair F14). ParseUint scans from
+the left and stops at the first problem: a range error (the running value exceeds 2^63-1)
+returns the maximum, a syntax error (a byte that is not a digit, or the empty string)
+returns 0. So digits overflowing BEFORE a bad byte (the numeric run may end in `∞`) saturate. -/
 def parseUint63Lossy (s : Bytes) : Nat :=
-  if s.isEmpty || !s.all isDigitB then 0 else
-  let n := digitsVal s
-  if n > 2 ^ 63 - 1 then 2 ^ 63 - 1 else n
+  let ds := s.takeWhile isDigitB
+  if digitsVal ds > 2 ^ 63 - 1 then 2 ^ 63 - 1
+  else if s.isEmpty || ds.length < s.length then 0
+  else digitsVal ds
 
 /-- Go `int(uint64)` conversion on a 64-bit platform. -/
 def wrapInt64 (n : Nat) : Int := if n < 2 ^ 63 then n else (n : Int) - 2 ^ 64
